@@ -90,7 +90,10 @@ CLAIMED.update({
         text=("Proof over exact rationals: length n, non-negative intensities summing to 1, m/z ladder and spacing, "
               "the term ratio law inside the loop, count in 1..=maxIter, first-index (minimality) characterisation of "
               "the search loop, and monotonicity in the threshold — the last also for an order-generic loop of which "
-              "the f64 code is an instance.  Model tied to the code by differential runs; constants (1800, "
+              "the f64 code is an instance.  Model/PoissonRange.lean adds the is_finite / is_infinite branches (terms and loop variables "
+              "beyond f64::MAX): Props/C15Range and C15RangeN prove length, ladder, sum 1, range 1..=maxIter and monotonicity for EVERY "
+              "mass for that model, and its agreement with the plain one in range; the real outputs up to 1e9 Da are compared with it.  "
+              "Model tied to the code by differential runs; constants (1800, "
               "1.0033548378, 255, proton) are re-extracted from the source on every run."),
         design_ref="§7.15",
         note=NOTE_COMMON + " Partial (floating point): overflow branches are outside the Q model; for masses up to 1e9 only length, sum, spacing, range and monotonicity are checked, on the implementation.",
@@ -116,7 +119,8 @@ CLAIMED.update({
     "C01": dict(
         text=("Model of the parser as it is written (eight states, twelve offsets, every slice a possible panic, "
               "recursive group parsing with fuel) in Lean; abstract syntax, rendering and denotation of the "
-              "documented grammar as the specification; theorems listed in Props/C01.lean.  Tied to the code by "
+              "documented grammar as the specification; theorems listed in Props/C01.lean; Props/C01I32.lean: no intermediate value of "
+              "the i32 computation exceeds the final totals when every group multiplier is >= 1 (witness for 0: known finding D34).  Tied to the code by "
               "running every table key, every token adjacency of the state machine, random nested formulas and "
               "2000-deep nesting through all eight public entry points, the model and a table-driven grammar oracle."),
         design_ref="§7.1",
@@ -182,7 +186,9 @@ CLAIMED.update({
         technique="Lean 4 cache-invariant proof over call histories + exhaustive short-history differential correspondence"),
     "C09": dict(
         text=("Model of NumPeaksSpec resolution (both conversions, saturating arithmetic, update_order), max_variants, the "
-              "1e-10 cut loop and the sort; shape theorems in Props/C09.lean.  Correspondence: every integer request in "
+              "1e-10 cut loop and the sort; shape theorems in Props/C09.lean; Props/C09Mz + Inst/C09Mz: the returned m/z are STRICTLY "
+              "increasing for every composition over the 67 domain elements up to a resolved order of 108; Inst/C09Req, Inst/Consts: "
+              "the constants hypotheses discharged for the translated constants (= the literals the property names).  Correspondence: every integer request in "
               "-3..320, i32 extremes, usize/Option forms and fractions on ten compositions plus the C03 cases, a quarter of "
               "them also through IsotopicDistribution::from_composition / from_composition_and_cache; "
               "non-emptiness, strictly increasing m/z within [lightest, heaviest], normalisation over the requested "
